@@ -67,6 +67,11 @@ def generate(rng, tier):
                        ("93805 days", 93805 * 86400), ("257 weeks", 257 * LEN["week"]), ("257 hours", 257 * 3600),
                        ("1 year", LEN["year"]), ("256 years", 256 * LEN["year"])):
         cases.append(exec_case(text, "en", kind="pinned-en", expect=secs, out=render(secs, "en")))
+    rule = {"op": "add_rule", "lang": "en", "patterns": ["hello {TEXT:who}"], "name": "greeting", "kind": "const_number", "k": str(bits(1.0)), "cur": ""}
+    for text, secs in (("90 seconds as minutes", 60), ("3 hours 20 minutes as hours", 3 * 3600), ("1 hour 30 minutes", 5400),
+                       ("2 weeks + 3 days", 17 * 86400), ("1 hour - 3 hours + 4 hours", 2 * 3600)):
+        cases.append(exec_case(text, "en", pre=[rule, {"op": "delete_rule", "lang": "en", "name": "greeting"}],
+                               kind="pinned-after-rule-history", expect=secs, out=render(secs, "en")))
     for text, secs in (("257 yıl", 257 * LEN["year"]), ("1 yıl", LEN["year"])):
         cases.append(exec_case(text, "tr", kind="pinned-tr", expect=secs, out=render(secs, "tr")))
     while len(cases) < n:
@@ -110,7 +115,14 @@ def generate(rng, tier):
             tgt = rng.choice(["second", "minute", "hour", "day", "week"])
             res = (abs(total) // LEN[tgt]) * LEN[tgt]
             text = " ".join(words) + " " + rng.choice(["as", "to", "in", "into"]) + " " + rng.choice(EN[tgt])
-            cases.append(exec_case(text, "en", kind="as", expect=res, out=render(res, "en")))
+            pre, kind = [], "as"
+            if rng.random() < 0.2:
+                # a custom rule registered and deleted again (or left in place) must not disturb the built-in rules
+                rule = {"op": "add_rule", "lang": "en", "patterns": ["hello {TEXT:who}"], "name": "greeting", "kind": "const_number",
+                        "k": str(bits(1.0)), "cur": ""}
+                pre = [rule] + ([{"op": "delete_rule", "lang": "en", "name": "greeting"}] if rng.random() < 0.7 else [])
+                kind = "as-after-rule-history"
+            cases.append(exec_case(text, "en", pre=pre, kind=kind, expect=res, out=render(res, "en")))
     return cases
 
 
